@@ -16,9 +16,13 @@
 //    are meaningful with the real hash functions, so a replayed failure is a
 //    real one.
 //  * Symbolic execution cost in CBMC is dominated by the number of executed
-//    statements (a 255-step Winternitz chain costs seconds), so the stand-ins
-//    are straight-line code on whole arrays / 64-bit lanes, and the quick-tier
-//    message-hash stand-ins fix all but one byte of Q (see hn_lo / hn_hi).
+//    statements (one 255-step Winternitz chain of the library costs ~10 s), so
+//    the stand-ins are straight-line code on whole arrays / 64-bit lanes, the
+//    message-hash stand-in returns a constant Q (00..00 when signing, FF..FF
+//    when verifying: the cheapest coefficient vectors, 255 resp. 510 chain
+//    steps) or, thorough tier, a constant with one symbolic byte, and all
+//    comparisons use concrete indices (symbolic indices into expanded arrays
+//    make the SAT problem 10x harder).
 //  * Harnesses that quantify over ALL signature strings obtain, in native
 //    playback, an HONEST signature instead (fn honest, replaced by honest_any
 //    under Kani): hash-dependent parts of a counterexample cannot transfer from
@@ -34,7 +38,7 @@ const LM: usize = m / 8;
 // ------------------------------------------------------------------------
 // Harness plumbing.
 //
-// vc!(cond) is vc!(cond) unless the harness stubs covers_on by
+// vc!(cond) is kani::cover!(cond) unless the harness stubs covers_on by
 // covers_off.  twin! emits every harness twice: NAME (with the vacuity guards)
 // and verif_ncx_NAME-suffix (without them).  Kani prints one concrete-playback
 // test per satisfied cover AND per failed check, and the runner replays the
@@ -117,17 +121,11 @@ fn fold8(x: u64) -> u8 {
     v as u8
 }
 
-// Hn, general shape.
-//  * chain step / secret x[i] (m4 one byte, m5 n bytes): the n input bytes are
-//    carried over, byte 0 absorbs the counter byte, both bytes of u16str(i),
-//    the two outer bytes of u32str(q) and the two outer bytes of I, then is
-//    rotated (order-sensitive).  Kept minimal on purpose: CBMC executes this
-//    up to 2 * 255 * p times per harness.
-//  * message hash (m4 = C, n bytes; m5 = message): mode 0x100 = "free": Q is C
-//    with lane 0 absorbing all other inputs (every coefficient symbolic);
-//    mode 0x00..0xFF = Q is the constant byte `mode` everywhere; mode 0x1xx with
-//    xx != 0: constant xx, except Q[QPOS] = digest of all inputs (one symbolic
-//    coefficient plus the symbolic checksum digits it induces).
+// Hn, message-hash shape (m4 = C, n bytes; m5 = message): mode 0x100 = "free":
+// Q is C with lane 0 absorbing all other inputs (every coefficient symbolic);
+// mode 0x00..0xFF = Q is the constant byte `mode` everywhere; mode 0x1xx with
+// xx != 0: constant xx, except Q[QPOS] = digest of all inputs (one symbolic
+// coefficient plus the symbolic checksum digits it induces).
 const QPOS: usize = 5;
 const MODE_FREE: u16 = 0x100;
 
